@@ -62,6 +62,7 @@ def run(ctx):
     r19_7(ctx, rep)
     r19_8(ctx, rep, roles, meths)
     r19_9(ctx, rep, roles, meths)
+    r19_10(ctx, rep, meths)
 
 
 def call_names(row):
@@ -462,3 +463,27 @@ def r19_9(ctx, rep, roles, meths):
                            sample="%s: one %s; %s" % (meth, producer.split("::")[-1], "reply sent to the source iff Some" if optional else "SYN sent to the chosen address"))
     rep.floor("returning-paths", n, 5)
     rep.instance(n)
+
+
+def r19_10(ctx, rep, meths):
+    r = rep.rule("R19.10", "the command channel is read at one site only — the select arm whose Shutdown / closed outcomes leave the loop "
+                           "(R19.1): no second receive can take a Shutdown off the queue and drop it")
+    fx = ctx.fx
+    from ..core import cfg as cfgmod
+    sites = [s for s in inv.field_writes(fx, SERVER, "command_rx") if s.kind in ("mutborrow", "assign", "calldest")]
+    run_co = coroutine_of(fx, meths["run"]["id"])
+    rep.obligation(len(sites) == 1 and fx.root_fn(sites[0].fn) == fx.root_fn(run_co["id"]), "C19/R19.10/second-receiver",
+                   "Server.command_rx is used mutably at %d sites (%s): a receive outside the select arm can swallow a Shutdown request" % (
+                       len(sites), ["%s:%s" % (x.fn.split("::")[-2] if "::" in x.fn else x.fn, x.line) for x in sites]),
+                   where(run_co, sites[1].line if len(sites) > 1 else None), sample="command_rx: one receive site, in Server::run")
+    # that one site is a `recv` (awaited in the select), not a try_recv / poll that could be looped
+    kinds = []
+    for s in sites:
+        f = fx.fns[s.fn]
+        b = f["blocks"][s.block]
+        t = b.get("term") or {}
+        c = cfgmod.term_callee(t) if t.get("k") == "call" else None
+        kinds.append(sym.strip_all_generics((c[1] or c[0])).split("::")[-1] if c else "?")
+    rep.obligation(kinds == ["recv"], "C19/R19.10/receive-kind", "the command channel is read through %s" % kinds, where(run_co),
+                   sample="command_rx.recv() in the select arm")
+    rep.instance(len(sites))
